@@ -248,6 +248,8 @@ class PlanRun:
         self.jobdirs[key] = str(job.path)
         eng.jobdir2key[str(job.path)] = key
         eng.codes[key] = spec.get("codes", [0])
+        if spec.get("nomarker"):
+            eng.nomarker.add(key)
 
     # ---- one run of the experiment
     def run_once(self, run_spec, run_index):
